@@ -1299,6 +1299,8 @@ class CSA:
                 name = itv[1]
             elif itv[0] == 'selffield':
                 name = 'self.' + itv[1]
+            elif itv[0] == 'unk':
+                name = 'value.' + str(itv[1])        # a list the analysis knows nothing about (e.g. a clone of the constant pool)
             else:
                 raise Undecided('CSA: for-loop over %s at line %s' % (itv, e.get('line')))
             self.m.finalize(s0)
